@@ -287,6 +287,28 @@ Theorem C03_dispatcher_step_moves :
   forall c t, CLDispConc.can_step c t = true -> CLDispConc.thr (CLDispConc.dcstep c t) t <> CLDispConc.thr c t.
 Proof. exact CLDispConc.can_step_moves. Qed.
 
+(* program order on the dispatcher machine (CLDispOrder.v): for every schedule, the sections logged for a thread, then the
+   section of the call it is in, then those of the calls it has still to make, are the sections of its program in program
+   order (generations aside: an adder's section is logged with the generation it drew); a finished thread has logged exactly
+   one section per listener-management call, in the order of its program — so the sequential run that explains an
+   execution (C03_dispatcher_machine_linearizes) contains every thread's calls in the order the thread made them *)
+From EV Require CLDispOrder.
+
+Theorem C03_dispatcher_sections_follow_program_order :
+  forall prog sched t,
+    let c := CLDispConc.dcrun (CLDispConc.dinit prog) sched in
+    CLDispOrder.logged_by t (CLDispConc.dlog c) ++ CLDispOrder.pending_sec (fst (CLDispConc.thr c t))
+      ++ CLDispOrder.secs_of (snd (CLDispConc.thr c t)) = CLDispOrder.secs_of (prog t).
+Proof. exact CLDispOrder.dispatcher_sections_follow_program_order. Qed.
+Print Assumptions C03_dispatcher_sections_follow_program_order.
+
+Theorem C03_dispatcher_finished_thread_logged_its_program :
+  forall prog sched t,
+    let c := CLDispConc.dcrun (CLDispConc.dinit prog) sched in
+    CLDispConc.finished c t -> CLDispOrder.logged_by t (CLDispConc.dlog c) = CLDispOrder.secs_of (prog t).
+Proof. exact CLDispOrder.finished_thread_logged_its_program. Qed.
+Print Assumptions C03_dispatcher_finished_thread_logged_its_program.
+
 (* WHAT A WALK CALLS (CLDispWalk.v).  A ghost runs beside the machine (CLDispWalk.gstep reads the configuration and never
    changes it: CLDispWalk.grun_machine) and projects the machine's steps onto the events of CLTrav: the head read of a walk
    is tinit, its look at a node TVisit, its step to the next node TAdvance, a list section executed by ANY thread on the same
@@ -407,6 +429,20 @@ Print Assumptions C03_lock_scopes_are_the_reviewed_ones.
 Theorem C03_dispatcher_entries_are_never_erased :
   GenLocks.dispatcher_map_erasers = [] /\ GenLocks.heter_dispatcher_map_erasers = [].
 Proof. split; reflexivity. Qed.
+
+(* which dispatcher calls keep listenerMutex across the list's own section: read off the header (tie A), and the flags the
+   schedule layer of tie B gives the machine's calls (CLDispRun.resolve) are these — the adders do, nobody else does
+   (the machine's theorems hold for every assignment of the flag; this pins the one the code has) *)
+From EV Require CLDispRun.
+Theorem C03_dispatcher_calls_that_keep_listener_mutex :
+  GenLocks.dispatcher_list_ops_under_listener_mutex = ["appendListener"; "insertListener"; "prependListener"] /\
+  (forall regs a,
+     match CLDispRun.resolve regs a with
+     | CLDispConc.KSec n _ =>
+         n = match a with CLDispRun.DAppend _ _ _ | CLDispRun.DPrepend _ _ _ | CLDispRun.DInsert _ _ _ _ => true | _ => false end
+     | CLDispConc.KWalk _ => True
+     end).
+Proof. split; [reflexivity|]. intros regs a. destruct a; reflexivity. Qed.
 
 From EV Require SpinModel.
 From EV.gen Require GenSpin.
